@@ -56,7 +56,7 @@ Proof.
   - apply Hgo. auto.
   - apply Hgo. destruct (c_preserve cfg); auto. rewrite do_chmod_in. auto.
   - pose proof (do_mkdir_in cfg np mode w) as X. destruct (do_mkdir cfg np mode w) as [go w1]. cbn [snd] in X.
-    apply Hgo. rewrite X. lia.
+    apply Hgo. destruct (go && c_preserve cfg && c_dirmode cfg); [rewrite do_chmod_in|]; rewrite X; lia.
 Qed.
 
 Lemma handle_file_ok cfg np mode size se tv cont w n :
